@@ -73,7 +73,7 @@ def main():
             if ok and suite:
                 junit = os.path.join(wt, '_junit.xml')
                 rc2, out2 = run([PY, '-m', 'pytest', '-q', '-p', 'no:cacheprovider',
-                                 '--timeout=900', '--continue-on-collection-errors', '-n', '6',
+                                 '--timeout=900', '--continue-on-collection-errors', '-n', os.environ.get('SEED_JOBS', '6'),
                                  '--dist', 'loadfile', '--junitxml=' + junit], wt, timeout=5400)
                 passed = set()
                 if os.path.exists(junit):
